@@ -36,4 +36,128 @@ theorem execDefer_view {K t sc A B} (d : EMOp) (h : ViewEq K t sc A B) :
   · -- unlock
     exact ⟨h1, h2, h3, ⟨by simp [execDefer], Or.inl rfl, l3, l4⟩⟩
 
+theorem eq_nil_of_count_le {l l' : List Nat} (h : ∀ x, l'.count x ≤ l.count x) (hl : l = []) : l' = [] := by
+  subst hl
+  cases l' with
+  | nil => rfl
+  | cons a as => have := h a; simp at this
+
+/-- thread `t`'s micro-op replayed on the solo scope: same frame result, views still agree -/
+theorem exec_view {K : Nat → Bool} {t : Nat} {m : EMOp} {fr fr' : EFrame} {A A' B : ScopeS}
+    (hv : ViewEq K t fr.cur A B) (hkd : (dataAccess m).isSome = true → A.data fr.key = B.data fr.key)
+    (h : exec t m fr A = some (fr', A')) :
+    ∃ B', exec t m fr B = some (fr', B') ∧ ViewEq K t fr.cur A' B' := by
+  obtain ⟨h1, h2, h3, ⟨l1, l2, l3, l4⟩⟩ := hv
+  cases m with
+  | rlock =>
+    simp [exec] at h; obtain ⟨g1, e1, e2⟩ := h; subst e1; subst e2
+    have hb : B.w = none := by
+      rcases l2 with l2 | l2
+      · exact l2
+      · have := l1 l2; rw [g1] at this; cases this
+    refine ⟨{ B with r := t :: B.r }, by simp [exec, hb], ⟨h1, h2, h3, ⟨by simpa using l1, l2, ?_, ?_⟩⟩⟩
+    · intro x; simp only [List.count_cons]; have := l3 x; omega
+    · intro x hx; rcases List.mem_cons.mp hx with hx | hx
+      · exact hx
+      · exact l4 x hx
+  | lock =>
+    simp [exec] at h; obtain ⟨⟨g1, g2⟩, e1, e2⟩ := h; subst e1; subst e2
+    have hb : B.w = none := by
+      rcases l2 with l2 | l2
+      · exact l2
+      · have := l1 l2; rw [g1] at this; cases this
+    have hbr : B.r = [] := eq_nil_of_count_le l3 g2
+    exact ⟨{ B with w := some t }, by simp [exec, hb, hbr], ⟨h1, h2, h3, ⟨fun _ => rfl, Or.inr rfl, l3, l4⟩⟩⟩
+  | readHit =>
+    have hkey := hkd rfl
+    simp only [exec] at h ⊢
+    rw [← hkey]
+    split at h <;> (simp at h; obtain ⟨e1, e2⟩ := h; subst e1; subst e2)
+    · exact ⟨B, rfl, ⟨h1, h2, h3, ⟨l1, l2, l3, l4⟩⟩⟩
+    · exact ⟨B, rfl, ⟨h1, h2, h3, ⟨l1, l2, l3, l4⟩⟩⟩
+  | readMiss =>
+    have hkey := hkd rfl
+    simp only [exec] at h ⊢
+    rw [← hkey]
+    split at h <;> (simp at h; obtain ⟨e1, e2⟩ := h; subst e1; subst e2)
+    · exact ⟨B, rfl, ⟨h1, h2, h3, ⟨l1, l2, l3, l4⟩⟩⟩
+    · exact ⟨B, rfl, ⟨h1, h2, h3, ⟨l1, l2, l3, l4⟩⟩⟩
+  | readVal =>
+    have hkey := hkd rfl
+    simp [exec] at h; obtain ⟨e1, e2⟩ := h; subst e1; subst e2
+    exact ⟨B, by simp [exec, hkey], ⟨h1, h2, h3, ⟨l1, l2, l3, l4⟩⟩⟩
+  | callOuter n =>
+    simp only [exec] at h ⊢
+    rw [← h2]
+    split at h <;> (simp at h; obtain ⟨e1, e2⟩ := h; subst e1; subst e2)
+    · exact ⟨B, rfl, ⟨h1, h2, h3, ⟨l1, l2, l3, l4⟩⟩⟩
+    · exact ⟨B, rfl, ⟨h1, h2, h3, ⟨l1, l2, l3, l4⟩⟩⟩
+  | writeData =>
+    simp [exec] at h; obtain ⟨e1, e2⟩ := h; subst e1; subst e2
+    refine ⟨{ B with data := fun k => if k = fr.key then some fr.val else B.data k }, by simp [exec],
+      ⟨h1, h2, ?_, ⟨l1, l2, l3, l4⟩⟩⟩
+    intro k hk'; by_cases hkk : k = fr.key <;> simp [hkk, h3 k hk']
+  | deleteData =>
+    simp [exec] at h; obtain ⟨e1, e2⟩ := h; subst e1; subst e2
+    refine ⟨{ B with data := fun k => if k = fr.key then none else B.data k }, by simp [exec],
+      ⟨h1, h2, ?_, ⟨l1, l2, l3, l4⟩⟩⟩
+    intro k hk'; by_cases hkk : k = fr.key <;> simp [hkk, h3 k hk']
+  | deferRUnlock | deferUnlock | callback | setOuter | bindLoop | ret =>
+    simp [exec] at h; obtain ⟨e1, e2⟩ := h; subst e1; subst e2
+    exact ⟨B, by simp [exec], ⟨h1, h2, h3, ⟨l1, l2, l3, l4⟩⟩⟩
+  | _ => simp [exec] at h
+
+/-- a micro-op of another thread on the root: thread `t`'s view of the root is unchanged provided the
+    other thread does not write one of `t`'s keys -/
+theorem exec_other_view {K : Nat → Bool} {t u : Nat} {m : EMOp} {fr fr' : EFrame} {A A' B : ScopeS}
+    (hv : ViewEq K t none A B) (hw : m = .writeData ∨ m = .deleteData → K fr.key = false)
+    (h : exec u m fr A = some (fr', A')) : ViewEq K t none A' B := by
+  obtain ⟨h1, h2, h3, ⟨l1, l2, l3, l4⟩⟩ := hv
+  cases m with
+  | rlock =>
+    simp [exec] at h; obtain ⟨-, -, e2⟩ := h; subst e2
+    refine ⟨h1, h2, h3, ⟨l1, l2, ?_, l4⟩⟩
+    intro x; simp only [List.count_cons]; have := l3 x; omega
+  | lock =>
+    simp [exec] at h; obtain ⟨⟨g1, -⟩, -, e2⟩ := h; subst e2
+    refine ⟨h1, h2, h3, ⟨?_, l2, l3, l4⟩⟩
+    intro hb; have := l1 hb; rw [g1] at this; cases this
+  | writeData =>
+    simp [exec] at h; obtain ⟨-, e2⟩ := h; subst e2
+    have hk := hw (Or.inl rfl)
+    refine ⟨h1, h2, ?_, ⟨l1, l2, l3, l4⟩⟩
+    intro k hk'
+    have hkk : k ≠ fr.key := by intro hh; subst hh; rw [hk' rfl] at hk; cases hk
+    simp [hkk, h3 k hk']
+  | deleteData =>
+    simp [exec] at h; obtain ⟨-, e2⟩ := h; subst e2
+    have hk := hw (Or.inr rfl)
+    refine ⟨h1, h2, ?_, ⟨l1, l2, l3, l4⟩⟩
+    intro k hk'
+    have hkk : k ≠ fr.key := by intro hh; subst hh; rw [hk' rfl] at hk; cases hk
+    simp [hkk, h3 k hk']
+  | readHit => simp only [exec] at h; split at h <;> (simp at h; obtain ⟨-, e2⟩ := h; subst e2; exact ⟨h1, h2, h3, ⟨l1, l2, l3, l4⟩⟩)
+  | readMiss => simp only [exec] at h; split at h <;> (simp at h; obtain ⟨-, e2⟩ := h; subst e2; exact ⟨h1, h2, h3, ⟨l1, l2, l3, l4⟩⟩)
+  | callOuter n => simp only [exec] at h; split at h <;> (simp at h; obtain ⟨-, e2⟩ := h; subst e2; exact ⟨h1, h2, h3, ⟨l1, l2, l3, l4⟩⟩)
+  | deferRUnlock | deferUnlock | readVal | callback | setOuter | bindLoop | ret =>
+    simp [exec] at h; obtain ⟨-, e2⟩ := h; subst e2; exact ⟨h1, h2, h3, ⟨l1, l2, l3, l4⟩⟩
+  | _ => simp [exec] at h
+
+theorem execDefer_other_view {K : Nat → Bool} {t u : Nat} {sc : Sid} {d : EMOp} {A B : ScopeS} (hu : u ≠ t)
+    (hv : ViewEq K t sc A B) (hw : d = .unlock → A.w = some u) : ViewEq K t sc (execDefer u d A) B := by
+  obtain ⟨h1, h2, h3, ⟨l1, l2, l3, l4⟩⟩ := hv
+  cases d <;> try exact ⟨h1, h2, h3, ⟨l1, l2, l3, l4⟩⟩
+  · refine ⟨h1, h2, h3, ⟨l1, l2, ?_, l4⟩⟩
+    intro x
+    simp only [execDefer]
+    by_cases hx : x = u
+    · subst hx
+      have : B.r.count x = 0 := List.count_eq_zero.mpr (fun hm => hu (l4 x hm))
+      omega
+    · rw [List.count_erase_of_ne hx]; exact l3 x
+  · refine ⟨h1, h2, h3, ⟨?_, l2, l3, l4⟩⟩
+    intro hb
+    have := l1 hb
+    rw [hw rfl] at this; cases this; exact absurd rfl hu
+
 end LispModel.Proofs.ConcEnv
